@@ -2,6 +2,7 @@
 C10 — Printed digit tables place every digit at its true position.
 -/
 import Sqroot.Proofs.Print
+import Sqroot.Proofs.Fprint
 namespace Sqroot.Props.C10
 open Sqroot.Model Sqroot.Proofs
 
@@ -25,6 +26,22 @@ theorem table_is_canonical_layout (v : Version) (s : PSettings) (maxDigits : Int
       r.accepted = Spec.layout (toPOpts v s maxDigits) feeds.flatten ∧
       r.written = r.accepted.length ∧ r.err = false ∧ r.pulled = feeds.flatten.length :=
   print_layout v s maxDigits feeds w st hw hasc hd
+
+/-- END TO END (v3): Fprint on any view (any chain of view operations on a base Number) with any
+normalised Positions value — one derived view per range, as `fromSequenceWithPositions` does —
+prints the canonical layout of exactly the requested positions that exist in the view
+(`Spec.shownOf`: for each range the part of the window inside it). Composition of C07
+(`forward_chain3`), C11 (normal form ⇒ strictly ascending) and the printer theorem. -/
+theorem fprint_end_to_end (c : MemoCfg) (m : Memo) (b v : Val3) (chain : List ViewOp) (ranges : List PRange)
+    (s : PSettings) (w : Nat → List Nat → Nat × Bool × Nat) (st : Nat) (hw : Reliable w)
+    (hb : IsBase3 b) (hv : applyChain3 b chain = some v)
+    (hnorm : Spec.NormalRanges (toPairs ranges)) (hfit : FitsRanges c m.src ranges)
+    (hd : ∀ p, m.src.digit p ≤ 9) :
+    ∃ r, fprint3 c m { w := w, st := st } s v ranges = some (.ok r) ∧
+      r.accepted = Spec.layout (toPOpts .v3 s (positionsEnd ranges))
+        (Spec.shownOf m.src.len m.src.digit (Spec.winOf (chain.map toSpecOp)) (toPairs ranges)) ∧
+      r.written = r.accepted.length ∧ r.err = false :=
+  fprint_is_layout c m b v chain ranges s w st hw hb hv hnorm hfit hd
 
 /-- the defaults of Fprint / Fwrite regenerated from the source are the documented ones -/
 theorem defaults_as_documented :
